@@ -11,6 +11,7 @@ CONSTANTS
   OrphanMetaKept = TRUE
   CorruptIgnoresMeta = FALSE
   MayRelease = FALSE
+  GraceTimer = "oracle"
 INVARIANTS CSafe
 PROPERTIES ClientsAttach
 CHECK_DEADLOCK FALSE
